@@ -61,6 +61,7 @@ struct Options
     std::string journal;
     std::string out;
     std::string hashes;
+    std::string violfile;       // violations are appended here as they are found (they survive a later crash of this worker)
     std::string replay;
     uint64_t    trigger_any{0}; // a case is non-trivial if it saw any of these event bits
     uint64_t    trigger_all{0}; // ... and all of these
@@ -225,6 +226,9 @@ static bool monitor_post_audit(Monitor& mon, const Probe& pr2, int64_t now, cons
     mon.cands.swap(next);
     return true;
 }
+
+struct CaseResult;
+static void write_case_json_fwd(std::ostream& os, const CaseResult& cr);
 
 struct Runner
 {
@@ -549,7 +553,15 @@ struct Runner
             {
                 for (auto& t : cr.viol.tags)
                     ++kept_per_prop[t.substr(0, t.find('.'))];
-                violations.push_back(cr);
+                if (!opt.violfile.empty())
+                {
+                    std::ofstream vf(opt.violfile, std::ios::app);
+                    std::ostringstream vs;
+                    write_case_json_fwd(vs, cr);
+                    vf << vs.str() << "\n";
+                }
+                else
+                    violations.push_back(cr);
             }
         }
         else if ((int)samples.size() < opt.samples && nt)
@@ -583,6 +595,8 @@ static void write_case_json(std::ostream& os, const CaseResult& cr, uint64_t cas
     }
     os << "}";
 }
+
+static void write_case_json_fwd(std::ostream& os, const CaseResult& cr) { write_case_json(os, cr, 0); }
 
 #include "seq_twins.hpp"
 
@@ -643,6 +657,8 @@ int main(int argc, char** argv)
             opt.out = nxt();
         else if (a == "--hashes")
             opt.hashes = nxt();
+        else if (a == "--viol-file")
+            opt.violfile = nxt();
         else if (a == "--replay")
             opt.replay = nxt();
         else if (a == "--trigger-any")
